@@ -36,11 +36,19 @@ theorem disjoint_contains : ∀ (a b : Bounds) (z : List Nat),
   | (l1, h1) :: a, (l2, h2) :: b, d :: ds, h, hc1, hc2 => by
     simp only [contains, Bool.and_eq_true, Bool.not_eq_true', Bool.or_eq_false_iff,
       decide_eq_false_iff_not] at hc1 hc2
-    simp only [disjointB, Bool.or_eq_true, decide_eq_true_eq] at h
+    simp only [disjointB, Bool.or_eq_true, Nat.blt_eq] at h
     rcases h with (h | h) | h
     · omega
     · omega
     · exact disjoint_contains a b ds h hc1.2 hc2.2
+
+theorem disjointB_symm : ∀ (a b : Bounds), disjointB a b = disjointB b a
+  | [], [] => rfl
+  | [], _ :: _ => rfl
+  | _ :: _, [] => rfl
+  | (l1, h1) :: a, (l2, h2) :: b => by
+    simp only [disjointB, disjointB_symm a b]
+    cases Nat.blt h1 l2 <;> cases Nat.blt h2 l1 <;> rfl
 
 /-! ## Mixed radix -/
 
@@ -176,6 +184,25 @@ theorem shapeB_spec (src : Entry → Bounds) : ∀ (tbl : List (List Entry)) (k0
     have := shapeB_spec src ls (k0 + 1) hs.2 k e h'
     exact ⟨by omega, this.2⟩
 
+theorem pairwiseB_spec (src : Entry → Bounds) : ∀ (l : List Entry), pairwiseB src l = true →
+    ∀ a ∈ l, ∀ b ∈ l, a = b ∨ disjointB (src a) (src b) = true
+  | [], _, a, ha, _, _ => by simp at ha
+  | x :: xs, h, a, ha, b, hb => by
+    simp only [pairwiseB, Bool.and_eq_true, List.all_eq_true, Bool.or_eq_true] at h
+    have ih := pairwiseB_spec src xs h.2
+    simp only [List.mem_cons] at ha hb
+    rcases ha with ha | ha <;> rcases hb with hb | hb
+    · left; rw [ha, hb]
+    · subst ha
+      rcases h.1 b hb with hd | he
+      · exact Or.inr hd
+      · exact Or.inl (eqB_eq _ _ he)
+    · subst hb
+      rcases h.1 a ha with hd | he
+      · right; rw [disjointB_symm]; exact hd
+      · exact Or.inl (eqB_eq _ _ he).symm
+    · exact ih a ha b hb
+
 /-- One side of a table: shapes, and pairwise disjoint source boxes (prefix-wise across lengths). -/
 structure SideOK (tbl : List (List Entry)) (src : Entry → Bounds) : Prop where
   shape : ∀ k e, e ∈ tbl.getD k [] → (src e).length = k + 1 ∧ EntryOK e
@@ -187,11 +214,7 @@ theorem sideOK_of (tbl : List (List Entry)) (src : Entry → Bounds)
   · intro k e he
     have := shapeB_spec src tbl 0 h1 k e he
     exact ⟨by omega, this.2⟩
-  · intro a ha b hb
-    simp only [sideDisjointB, List.all_eq_true, Bool.or_eq_true] at h2
-    rcases h2 a ha b hb with h | h
-    · exact Or.inl (eqB_eq a b h)
-    · exact Or.inr h
+  · exact pairwiseB_spec src _ h2
 
 theorem subsetB_spec (a b : List (List Entry)) (h : subsetB a b = true) :
     ∀ e ∈ a.flatten, e ∈ b.flatten := by
